@@ -34,6 +34,8 @@ def run(rep, kf, tier, seed):
         rep.merge(r)
     import contracts.removal as crm
     engine_b.discharge(rep, kf, [crm.propagate_contract()], "C06", tier, seed)
+    import contracts.closure as clo
+    clo.macro_presence_obligations(rep, "C06")
     import contracts.containment as ct
     ct.discharge(rep, kf, "C06", tier, seed)
     run_bounded(rep, kf, "C06", ["body_refs", "removal_closure", "enum_values", "schema_order"], tier)
